@@ -236,6 +236,7 @@ type World struct {
 	OnSegment   func(c *TCPConn, toServer bool, n int, data []byte)
 	OnDeliver   func(c *TCPConn, toServer bool, n int, data []byte)
 	OnFatal     func(g *G, msg string)
+	DiskFn      func(c DiskCall) DiskVerdict // R10: verdict for one data-file read/write
 	Log         func(format string, a ...interface{})
 	KeysPerm    bool // permute map iteration order (seeded) instead of plain sorted order
 
